@@ -82,10 +82,20 @@ pub fn crypto_secretbox_open_detached(
     key: &Key,
 ) -> Result<(), Error> {
     let c_len = ciphertext.len();
-    message[..c_len].copy_from_slice(ciphertext);
+    if message.len() < c_len {
+        return Err(dryoc_error!(format!(
+            "Message length was {}, should be at least {}",
+            message.len(),
+            c_len
+        )));
+    }
+    // only the first `c_len` bytes of the buffer take part: whatever a longer
+    // buffer holds beyond them must be neither authenticated nor decrypted
+    let message = &mut message[..c_len];
+    message.copy_from_slice(ciphertext);
     crypto_secretbox_open_detached_inplace(message, mac, nonce, key).map_err(|err| {
         // don't leave a copy of the rejected ciphertext in the caller's buffer
-        message[..c_len].fill(0);
+        message.fill(0);
         err
     })
 }
